@@ -22,18 +22,37 @@ const NAME_SETS: [[&str; 5]; 4] = [
     ["strx", "stringy", "fltx", "A1", "B_2"],
 ];
 
-/// comparison leaves (kind >= 3): (text template, field value making it true, value making it false)
-const CMP_LEAVES: [(&str, i64, i64); 10] = [
-    ("int(f{}) == 1", 1, 2),
-    ("1 < int(f{})", 2, 0),
-    ("int(f{}) <= 1", 1, 2),
-    ("int(f{}) >= 1", 1, 0),
-    ("int(f{}) < 1", 0, 1),
-    ("int(f{}) > 1", 2, 1),
-    ("1 <= int(f{})", 1, 0),
-    ("1 >= int(f{})", 1, 2),
-    ("1 > int(f{})", 0, 1),
-    ("1 == int(f{})", 1, 0),
+/// a document value for a comparison leaf
+#[derive(Clone, Copy)]
+enum LV {
+    I(i64),
+    S(&'static str),
+    Fl(f64),
+}
+/// comparison leaves (kind >= 3): text template ({} = leaf position), then the (field prefix,
+/// value) pairs that make it true and those that make it false; missing = no field at all
+struct CmpLeaf {
+    text: &'static str,
+    t: &'static [(&'static str, LV)],
+    f: &'static [(&'static str, LV)],
+}
+const CMP_LEAVES: [CmpLeaf; 16] = [
+    CmpLeaf { text: "int(f{}) == 1", t: &[("f", LV::I(1))], f: &[("f", LV::I(2))] },
+    CmpLeaf { text: "1 < int(f{})", t: &[("f", LV::I(2))], f: &[("f", LV::I(0))] },
+    CmpLeaf { text: "int(f{}) <= 1", t: &[("f", LV::I(1))], f: &[("f", LV::I(2))] },
+    CmpLeaf { text: "int(f{}) >= 1", t: &[("f", LV::I(1))], f: &[("f", LV::I(0))] },
+    CmpLeaf { text: "int(f{}) < 1", t: &[("f", LV::I(0))], f: &[("f", LV::I(1))] },
+    CmpLeaf { text: "int(f{}) > 1", t: &[("f", LV::I(2))], f: &[("f", LV::I(1))] },
+    CmpLeaf { text: "1 <= int(f{})", t: &[("f", LV::I(1))], f: &[("f", LV::I(0))] },
+    CmpLeaf { text: "1 >= int(f{})", t: &[("f", LV::I(1))], f: &[("f", LV::I(2))] },
+    CmpLeaf { text: "1 > int(f{})", t: &[("f", LV::I(0))], f: &[("f", LV::I(1))] },
+    CmpLeaf { text: "1 == int(f{})", t: &[("f", LV::I(1))], f: &[("f", LV::I(0))] },
+    CmpLeaf { text: "flt(f{}) >= 1.5", t: &[("f", LV::Fl(1.5))], f: &[("f", LV::I(1))] },
+    CmpLeaf { text: "0.5 > flt(f{})", t: &[("f", LV::Fl(0.25))], f: &[("f", LV::Fl(0.5))] },
+    CmpLeaf { text: "str(f{}) == str(g{})", t: &[("f", LV::S("v")), ("g", LV::S("v"))], f: &[("f", LV::S("v")), ("g", LV::S("w"))] },
+    CmpLeaf { text: "string(f{}) == string(g{})", t: &[("f", LV::I(1)), ("g", LV::S("1"))], f: &[("f", LV::I(1)), ("g", LV::S("2"))] },
+    CmpLeaf { text: "int(f{}) == int(g{})", t: &[("f", LV::I(3)), ("g", LV::S("3"))], f: &[("f", LV::I(3)), ("g", LV::I(4))] },
+    CmpLeaf { text: "flt(f{}) < flt(g{})", t: &[("f", LV::I(1)), ("g", LV::Fl(1.5))], f: &[("f", LV::I(2)), ("g", LV::Fl(1.5))] },
 ];
 const LEAF_KINDS: u8 = 3 + CMP_LEAVES.len() as u8;
 
@@ -42,7 +61,7 @@ fn leaf_text(pos: usize, kind: u8, names: &[&str; 5]) -> String {
         0 => names[pos].to_string(),
         1 => format!("all({})", names[pos]),
         2 => format!("of({}, 1)", names[pos]),
-        k => CMP_LEAVES[(k - 3) as usize].0.replace("{}", &(pos + 1).to_string()),
+        k => CMP_LEAVES[(k - 3) as usize].text.replace("{}", &(pos + 1).to_string()),
     }
 }
 
@@ -298,8 +317,21 @@ fn doc_for(a: &Ast, vals: &[i8]) -> MObj {
                     (_, -1) => {}
                     (0..=2, 1) => d.set(&name, s("v")),
                     (0..=2, _) => d.set(&name, s("w")),
-                    (k, 1) => d.set(&name, MVal::Int(CMP_LEAVES[(*k - 3) as usize].1)),
-                    (k, _) => d.set(&name, MVal::Int(CMP_LEAVES[(*k - 3) as usize].2)),
+                    (k, tv) => {
+                        let leaf = &CMP_LEAVES[(*k - 3) as usize];
+                        let vals = if tv == 1 { leaf.t } else { leaf.f };
+                        for (prefix, v) in vals {
+                            let fname = format!("{}{}", prefix, p + 1);
+                            d.set(
+                                &fname,
+                                match v {
+                                    LV::I(i) => MVal::Int(*i),
+                                    LV::S(x) => s(x),
+                                    LV::Fl(x) => MVal::Float(*x),
+                                },
+                            );
+                        }
+                    }
                 }
             }
             Ast::Not(x) => go(x, vals, d),
